@@ -204,10 +204,17 @@ class Ctx:
                 h.update(f.read_bytes())
         return h.hexdigest()[:16]
 
+    def gama_dir(self, sanitize=True):
+        """build directory of the executables for the current tree and source directory"""
+        tag = "san" if sanitize else "rel"
+        return BUILD / f"gama-{tag}-{sha(self.tree_hash(), str(REPO.resolve()))}"
+
     def build_gama(self, sanitize=True, targets=("gama-local", "gama-g3", "compare-xyz", "gama-local-deformation")):
         """CMake build of the executables from the current tree (guard on); cached per tree hash"""
         tag = "san" if sanitize else "rel"
-        d = BUILD / f"gama-{tag}-{self.tree_hash()}"
+        # keyed by the tree content AND the source directory: a CMake cache records its source path, so a scratch
+        # worktree and /repo with identical content must not share a build directory
+        d = self.gama_dir(sanitize)
         stamp = d / ".ok"
         want = [d / t for t in targets]
         if stamp.exists() and all(w.exists() for w in want):
@@ -231,11 +238,15 @@ class Ctx:
         if stamp.exists() and all(w.exists() for w in want):
             return d
         cxx = f"-D{GUARD} -g -O1" + (" -fsanitize=address,undefined -fno-sanitize-recover=all -fno-omit-frame-pointer" if sanitize else "")
-        rc, out, err = sh(["cmake", "-G", "Ninja", "-S", str(REPO), "-B", str(d), "-DCMAKE_BUILD_TYPE=None",
-                           f"-DCMAKE_CXX_FLAGS={cxx}", f"-DCMAKE_C_FLAGS=-O1"
-                           + (" -fsanitize=address,undefined" if sanitize else ""),
-                           ] + ([f"-DCMAKE_EXE_LINKER_FLAGS=-fsanitize=address,undefined"] if sanitize else []),
-                          timeout=600)
+        cmake_cmd = (["cmake", "-G", "Ninja", "-S", str(REPO), "-B", str(d), "-DCMAKE_BUILD_TYPE=None",
+                      f"-DCMAKE_CXX_FLAGS={cxx}", f"-DCMAKE_C_FLAGS=-O1"
+                      + (" -fsanitize=address,undefined" if sanitize else ""),
+                      ] + ([f"-DCMAKE_EXE_LINKER_FLAGS=-fsanitize=address,undefined"] if sanitize else []))
+        rc, out, err = sh(cmake_cmd, timeout=600)
+        if rc != 0 and "does not match the source" in (out + err):     # stale cache of another source directory
+            shutil.rmtree(d, ignore_errors=True)
+            d.mkdir(parents=True, exist_ok=True)
+            rc, out, err = sh(cmake_cmd, timeout=600)
         if rc != 0:
             raise BuildError("cmake", out + err)
         rc, out, err = sh(["cmake", "--build", str(d), "-j16", "--target"] + list(targets), timeout=3600)
